@@ -104,9 +104,17 @@ class Kinds:
             return kd(t[1])
         if tag == "mut":
             out = kd(t[1])
-            for a in t[3]:
+            # what an in-place update adds to a container is its content arguments, not the index / position
+            content = t[3]
+            if t[2] in ("setitem", "insert"):
+                content = t[3][1:]
+            elif t[2] in ("delitem", "pop", "remove", "clear", "reverse", "sort"):
+                content = ()
+            for a in content:
                 out |= kd(a)
             return self._norm(out)
+        if tag == "slice":
+            return k(CONST)
         if tag == "phi":
             key = ("phi", id(res), t)
             if res is None or key in self._active:
